@@ -383,6 +383,7 @@ func streamScenario(r *rand.Rand, i int, tier string) *Case {
 	now := time.Now().Truncate(time.Second).Add(-2 * time.Second)
 	nn := 2 + r.Intn(3)
 	var objs []client.Object
+	nb := r.Intn(3) // the neighbour: 0 same name in another namespace, 1 another name in the same namespace, 2 none
 	for k := 0; k < nn; k++ {
 		n := &corev1.Node{ObjectMeta: metav1.ObjectMeta{Name: fmt.Sprintf("n%d", k)}}
 		if r.Intn(3) == 0 {
@@ -390,6 +391,14 @@ func streamScenario(r *rand.Rand, i int, tier string) *Case {
 			n.Annotations = map[string]string{overrideKey(testNS, testEDS, "main"): `{"limits":{"cpu":"1"}}`}
 			if r.Intn(2) == 0 {
 				n.Annotations[overrideKey(testNS, testEDS, "side")] = `{"requests":{"memory":"64Mi"}}`
+			}
+			// the neighbour has its own, different override on the same node: what one
+			// ExtendedDaemonSet computed for a node must never be served to the other
+			switch nb {
+			case 0:
+				n.Annotations[overrideKey("ns2", testEDS, "main")] = `{"limits":{"cpu":"3"}}`
+			case 1:
+				n.Annotations[overrideKey(testNS, "bar", "main")] = `{"limits":{"cpu":"2"}}`
 			}
 		}
 		objs = append(objs, n)
@@ -399,7 +408,7 @@ func streamScenario(r *rand.Rand, i int, tier string) *Case {
 	objs = append(objs, eds)
 	sc := &scenario{r: r, ns: testNS, name: testEDS, nextNode: nn, tplID: 1, clock: testingclock.NewFakeClock(time.Now())}
 	// a neighbour: same name in another namespace, or another name in the same namespace
-	switch r.Intn(3) {
+	switch nb {
 	case 0:
 		objs = append(objs, newScenarioEDS(r, "ns2", testEDS, 2, nn, now, false))
 		sc.others = append(sc.others, types.NamespacedName{Namespace: "ns2", Name: testEDS})
